@@ -5,16 +5,30 @@ import json, os, subprocess, sys, re
 ROOT = os.path.dirname(os.path.dirname(os.path.abspath(__file__)))
 REPO = os.environ.get('VERIF_REPO', '/repo')   # a scratch clone may stand in for /repo (with a scratch copy of /verif)
 rows = []
+only = set(sys.argv[1:])        # seed names: run these only, keep the other rows of RESULTS.md as they are
+kept = {}
+if only and os.path.exists(os.path.join(ROOT, 'seeded', 'RESULTS.md')):
+    for l in open(os.path.join(ROOT, 'seeded', 'RESULTS.md')):
+        c = [x.strip() for x in l.strip().strip('|').split(' | ')]
+        if len(c) == 6 and re.fullmatch(r'C\d\d-\d', c[0]):
+            kept[c[0]] = tuple(c)
 for name in sorted(os.listdir(os.path.join(ROOT, 'seeded'))):
     d = os.path.join(ROOT, 'seeded', name)
-    if not os.path.isdir(d):
+    if not os.path.isdir(d) or not re.fullmatch(r'C\d\d-\d', name):
+        continue
+    if only and name not in only:
+        if name in kept:
+            rows.append(kept[name])
         continue
     meta = json.load(open(os.path.join(d, 'meta.json')))
     prop = meta['property']
     st = subprocess.run(['git', '-C', REPO, 'status', '--porcelain'], capture_output=True, text=True).stdout.strip()
     if st:
         print('refusing: /repo has local modifications'); sys.exit(2)
-    subprocess.run(['git', '-C', REPO, 'apply', os.path.join(d, 'patch.diff')], check=True)
+    if subprocess.run(['git', '-C', REPO, 'apply', os.path.join(d, 'patch.diff')]).returncode != 0:
+        rows.append((name, prop, 'PATCH DOES NOT APPLY', '-', '', meta['change'][:110]))
+        print(rows[-1][:5])
+        continue
     try:
         r = subprocess.run([os.path.join(ROOT, 'check'), prop], capture_output=True, text=True)
         out = r.stdout + r.stderr
